@@ -450,7 +450,9 @@ struct BItem {
 }
 
 /// Build the reference-encrypted document under a writer variant and let lopdf open it.
-fn b_eval(c: &Case, v: BVariant, k: Option<&Counters>) -> Result<Vec<BItem>, String> {
+/// `only`: evaluate just these items (classifier: the items that failed under the standard variant).
+fn b_eval(c: &Case, v: BVariant, k: Option<&Counters>, only: Option<&[&'static str]>) -> Result<Vec<BItem>, String> {
+    let want = |name: &str| only.map(|o| o.contains(&name)).unwrap_or(true);
     let r = c.cfg.revision();
     let b = build_b(c, v)?;
     let item = |name: &'static str, problem: Option<String>| BItem { name, problem, intrinsic: None };
@@ -475,20 +477,27 @@ fn b_eval(c: &Case, v: BVariant, k: Option<&Counters>) -> Result<Vec<BItem>, Str
         Ok(Ok(())) => None,
         other => Some(format!("{:?}", other)),
     };
-    out.push(item("B:authenticate user", show(util::guard(|| target.authenticate_user_password(&c.user)))));
-    let owner_present = !(r <= 4 && b.op.is_empty());
-    if owner_present {
-        out.push(item("B:authenticate owner", show(util::guard(|| target.authenticate_owner_password(&c.owner)))));
+    if want("B:authenticate user") {
+        out.push(item("B:authenticate user", show(util::guard(|| target.authenticate_user_password(&c.user)))));
     }
-    let as_user = lopdf_open(&target, Ok(&c.user));
-    out.push(item(
-        "B:decrypt(user)",
-        match &as_user {
-            Ok(d) => diff_plain(&b.plain, d),
-            Err(e) => Some(e.clone()),
-        },
-    ));
-    if owner_present {
+    let owner_present = !(r <= 4 && b.op.is_empty());
+    let mut owner_auth_ok = false;
+    if owner_present && (want("B:authenticate owner") || want("B:decrypt(owner)")) {
+        let a = show(util::guard(|| target.authenticate_owner_password(&c.owner)));
+        owner_auth_ok = a.is_none();
+        out.push(item("B:authenticate owner", a));
+    }
+    let as_user = if want("B:decrypt(user)") || (want("B:decrypt(owner)") && r <= 4) { lopdf_open(&target, Ok(&c.user)) } else { Err("not evaluated".into()) };
+    if want("B:decrypt(user)") {
+        out.push(item(
+            "B:decrypt(user)",
+            match &as_user {
+                Ok(d) => diff_plain(&b.plain, d),
+                Err(e) => Some(e.clone()),
+            },
+        ));
+    }
+    if owner_present && want("B:decrypt(owner)") {
         if let Some(k) = k {
             inc(&k.lopdf_opens, 1);
         }
@@ -498,7 +507,7 @@ fn b_eval(c: &Case, v: BVariant, k: Option<&Counters>) -> Result<Vec<BItem>, Str
             Err(e) => Some(e.clone()),
         };
         let mut intrinsic = None;
-        if problem.is_some() && r <= 4 && rc::pad32(&b.op) != rc::pad32(&b.up) && out.iter().any(|i| i.name == "B:authenticate owner" && i.problem.is_none()) {
+        if problem.is_some() && r <= 4 && rc::pad32(&b.op) != rc::pad32(&b.up) && owner_auth_ok {
             // finding (i): lopdf authenticates it as owner, and offering the user password that Algorithm 7
             // recovers from O gives exactly what decrypt(user) gives
             if let (Some((_, recovered)), Ok(du)) = (rc::alg7_owner(&b.enc, &b.id0, &b.op), &as_user) {
@@ -516,12 +525,22 @@ fn b_eval(c: &Case, v: BVariant, k: Option<&Counters>) -> Result<Vec<BItem>, Str
 
 fn run_b(c: &Case, k: Option<&Counters>) -> Result<Vec<Fail>, String> {
     let r = c.cfg.revision();
-    let base = b_eval(c, BVariant::default(), k)?;
+    let base = b_eval(c, BVariant::default(), k, None)?;
     if base.iter().all(|i| i.problem.is_none()) {
         return Ok(vec![]);
     }
-    // candidate deviations whose predicate holds for this case
-    let mut cands: Vec<(&'static str, Box<dyn Fn(&mut BVariant)>)> = vec![];
+    // candidate deviations whose predicate holds for this case (most frequent first)
+    type Mod = Box<dyn Fn(&mut BVariant)>;
+    let mut cands: Vec<(&'static str, Mod)> = vec![];
+    if r >= 5 && c.write_length {
+        cands.push(("v5-length-256", Box::new(|v| v.no_length = true)));
+    }
+    if r >= 5 {
+        cands.push(("perms-not-encrypted", Box::new(|v| v.perms_plain = true)));
+    }
+    if matches!(c.cfg.ver, Ver::V4) && !c.write_length {
+        cands.push(("v4-length-absent", Box::new(|v| v.force_length = true)));
+    }
     if c.kind == DocKind::StreamDict && c.cfg.strf != F::Identity {
         cands.push(("stream-dict-strings", Box::new(|v| v.quirks.skip_stream_dict_strings = true)));
     }
@@ -531,22 +550,15 @@ fn run_b(c: &Case, k: Option<&Counters>) -> Result<Vec<Fail>, String> {
     if uses_custom_identity(&c.cfg) {
         cands.push(("cfm-none", Box::new(|v| v.cfm_identity = true)));
     }
-    if matches!(c.cfg.ver, Ver::V4) && !c.write_length {
-        cands.push(("v4-length-absent", Box::new(|v| v.force_length = true)));
+    // variants to try: every single candidate, then every pair - evaluated lazily and cached
+    let mut sets: Vec<Vec<usize>> = (0..cands.len()).map(|i| vec![i]).collect();
+    for i in 0..cands.len() {
+        for j in i + 1..cands.len() {
+            sets.push(vec![i, j]);
+        }
     }
-    if r >= 5 && c.write_length {
-        cands.push(("v5-length-256", Box::new(|v| v.no_length = true)));
-    }
-    if r >= 5 {
-        cands.push(("perms-not-encrypted", Box::new(|v| v.perms_plain = true)));
-    }
-    // evaluate every single candidate, then every pair, lazily
-    let mut evals: Vec<(Vec<&'static str>, Vec<BItem>)> = vec![];
-    for (id, f) in &cands {
-        let mut v = BVariant::default();
-        f(&mut v);
-        evals.push((vec![*id], b_eval(c, v, None)?));
-    }
+    let failing: Vec<&'static str> = base.iter().filter(|i| i.problem.is_some() && i.intrinsic.is_none()).map(|i| i.name).collect();
+    let mut cache: Vec<Option<Vec<BItem>>> = sets.iter().map(|_| None).collect();
     let passes = |items: &[BItem], name: &str| -> bool {
         // the item passes under the variant (an item that no longer exists because the document now
         // opens differently - e.g. loads - counts only if nothing at all fails there)
@@ -556,30 +568,29 @@ fn run_b(c: &Case, k: Option<&Counters>) -> Result<Vec<Fail>, String> {
         }
     };
     let mut fails = vec![];
-    let mut need_pairs = false;
-    for it in base.iter().filter(|i| i.problem.is_some()) {
-        if it.intrinsic.is_none() && !evals.iter().any(|(_, items)| passes(items, it.name)) {
-            need_pairs = true;
-        }
-    }
-    if need_pairs {
-        for i in 0..cands.len() {
-            for j in i + 1..cands.len() {
-                let mut v = BVariant::default();
-                (cands[i].1)(&mut v);
-                (cands[j].1)(&mut v);
-                evals.push((vec![cands[i].0, cands[j].0], b_eval(c, v, None)?));
-            }
-        }
-    }
     for it in base.into_iter().filter(|i| i.problem.is_some()) {
         let detail = it.problem.unwrap();
         if let Some(f) = it.intrinsic {
             fails.push(Fail { item: it.name.into(), detail, finding: Some(f) });
             continue;
         }
-        match evals.iter().find(|(_, items)| passes(items, it.name)) {
-            Some((ids, _)) => {
+        let mut explained: Option<&Vec<usize>> = None;
+        for (si, set) in sets.iter().enumerate() {
+            if cache[si].is_none() {
+                let mut v = BVariant::default();
+                for i in set {
+                    (cands[*i].1)(&mut v);
+                }
+                cache[si] = Some(b_eval(c, v, None, Some(&failing))?);
+            }
+            if passes(cache[si].as_ref().unwrap(), it.name) {
+                explained = Some(set);
+                break;
+            }
+        }
+        match explained {
+            Some(set) => {
+                let ids: Vec<&'static str> = set.iter().map(|i| cands[*i].0).collect();
                 for (n, id) in ids.iter().enumerate() {
                     let item = if ids.len() == 1 { it.name.to_string() } else { format!("{} [{} of {} deviations: {}]", it.name, n + 1, ids.len(), ids.join(" + ")) };
                     fails.push(Fail { item, detail: detail.clone(), finding: Some(id) });
@@ -658,16 +669,24 @@ fn cases(run: &Run) -> Vec<Case> {
                     if r <= 4 && pname == "saslprep" {
                         continue;
                     }
-                    // revision 6 costs ~40 ms per case (Algorithm 2.B): the quick bound takes every third
-                    // password pair per (configuration, document)
-                    if r6 && !thorough && (ci + ki + pi) % 3 != 0 && !(pname == "distinct" && *kind == DocKind::Page) {
+                    // revision 6 costs ~40 ms per case (Algorithm 2.B): the quick bound takes every sixth
+                    // (document, password pair) per configuration; revision 5 shares everything but the hash and keeps the full menu
+                    if r6 && !thorough && (ci + ki + pi) % 6 != 0 && !(pname == "distinct" && *kind == DocKind::Page) {
                         continue;
                     }
                     let perm_list: Vec<u64> = if thorough {
-                        if r6 {
+                        // thorough bound: all 256 conforming words on one document (menu first, so that the
+                        // first ten indices are the menu), the menu on the others; revision 6: the menu
+                        if r6 || *kind != DocKind::Page {
                             menu::perm_menu()
                         } else {
-                            menu::perm_all256()
+                            let mut v = menu::perm_menu();
+                            for w in menu::perm_all256() {
+                                if !v.contains(&w) {
+                                    v.push(w);
+                                }
+                            }
+                            v
                         }
                     } else if r6 {
                         if pname == "distinct" && *kind == DocKind::Page {
@@ -675,8 +694,12 @@ fn cases(run: &Run) -> Vec<Case> {
                         } else {
                             vec![all]
                         }
-                    } else {
+                    } else if *kind == DocKind::Page {
                         menu::perm_menu()
+                    } else {
+                        // quick bound: the permission menu is crossed with one document only (P enters
+                        // Algorithm 2 / 10 as four bytes and does not interact with the document)
+                        vec![all]
                     };
                     let ids: Vec<usize> = if r <= 4 { vec![16, 0, 32] } else { vec![16] };
                     // variants of the reference-side spelling (B only)
@@ -694,7 +717,10 @@ fn cases(run: &Run) -> Vec<Case> {
                             }
                         }
                         if identity_named_not_in_cf(cfg) {
-                            spellings.push((true, true));
+                            spellings.push((!matches!(cfg.ver, Ver::R5 | Ver::V5), true));
+                        }
+                        if r6 && !thorough && *kind != DocKind::Page {
+                            spellings.truncate(1);
                         }
                     }
                     for (mi, perms) in perm_list.iter().enumerate() {
@@ -703,7 +729,15 @@ fn cases(run: &Run) -> Vec<Case> {
                             if !thorough && ii > 0 && mi > 0 {
                                 continue;
                             }
+                            // thorough bound: identifier lengths 0 and 32 with the permission menu only
+                            if thorough && ii > 0 && mi >= 10 {
+                                continue;
+                            }
                             for (si, (write_length, omit_identity)) in spellings.iter().enumerate() {
+                                // quick bound: the alternative spellings with the first permission word and identifier only
+                                if !thorough && si > 0 && (mi > 0 || ii > 0) {
+                                    continue;
+                                }
                                 let patterns: Vec<usize> = if dir == 'A' {
                                     vec![0]
                                 } else if thorough && mi < 10 {
@@ -730,7 +764,8 @@ fn cases(run: &Run) -> Vec<Case> {
                                     out.push(base.clone());
                                     // through lopdf's writer and loader: permissions = all only (thorough: the menu)
                                     let file_too = if thorough { mi < 10 } else { *perms == all };
-                                    if file_too && !(r6 && !thorough && mi > 0) {
+                                    let r6_quick_file = pname == "distinct" || pname == "empty_user";
+                                    if file_too && !(r6 && !thorough && (mi > 0 || !r6_quick_file)) {
                                         // direction A needs a loader that does not decrypt: both passwords non-empty
                                         if dir == 'B' || (!user.is_empty() && !owner.is_empty()) {
                                             out.push(Case { via_file: true, table: (ci + ki + pi + ii) % 2 == 0, ..base });
@@ -781,10 +816,14 @@ fn main() {
     let per_dir = [AtomicU64::new(0), AtomicU64::new(0)];
     let via_file = AtomicU64::new(0);
     let classes: std::sync::Mutex<BTreeMap<String, u64>> = std::sync::Mutex::new(BTreeMap::new());
+    let counts: std::sync::Mutex<BTreeMap<String, u64>> = std::sync::Mutex::new(BTreeMap::new());
+    let cpu: std::sync::Mutex<BTreeMap<String, (u64, u64)>> = std::sync::Mutex::new(BTreeMap::new());
     util::par_for(list.len(), |i| {
         let c = &list[i];
         run.eval(1);
+        let t0 = std::time::Instant::now();
         let res = run_case(c, Some(&k));
+        let dt0 = t0.elapsed().as_micros() as u64;
         match res {
             Err(e) => {
                 // only the documented skip is tolerated
@@ -797,6 +836,7 @@ fn main() {
             }
             Ok(fails) => {
                 inc(&per_dir[(c.dir == 'B') as usize], 1);
+                *counts.lock().unwrap().entry(format!("{} R{}", c.dir, c.cfg.revision())).or_insert(0) += 1;
                 if c.via_file {
                     inc(&via_file, 1);
                 }
@@ -830,11 +870,23 @@ fn main() {
                 }
             }
         }
+        let dt = t0.elapsed().as_micros() as u64;
+        {
+            let mut g = cpu.lock().unwrap();
+            let e = g.entry(format!("{} R{}", c.dir, c.cfg.revision())).or_insert((0, 0));
+            e.0 += dt0;
+            e.1 += dt;
+        }
         if i == 0 || i == list.len() / 5 || i == list.len() / 2 || i == (list.len() * 4) / 5 || i == list.len() - 1 {
             run.sample(c.to_json());
         }
     });
     run.set("failing_items_by_class", json!(classes.into_inner().unwrap()));
+    run.set("cases_by_direction_and_revision", json!(counts.into_inner().unwrap()));
+    run.set(
+        "thread_ms_by_direction_and_revision_first_run_and_with_replays",
+        json!(cpu.into_inner().unwrap().into_iter().map(|(k, v)| (k, [v.0 / 1000, v.1 / 1000])).collect::<BTreeMap<String, [u64; 2]>>()),
+    );
     run.set("cases_direction_A", json!(per_dir[0].load(Ordering::Relaxed)));
     run.set("cases_direction_B", json!(per_dir[1].load(Ordering::Relaxed)));
     run.set("cases_through_writer_and_loader", json!(via_file.load(Ordering::Relaxed)));
@@ -846,7 +898,15 @@ fn main() {
     run.set("cases_skipped_loader_autodecrypt_container", json!(k.skipped.load(Ordering::Relaxed)));
     run.set("configurations_A", json!(configs_a().len()));
     run.set("configurations_B", json!(configs_b().len()));
-    run.set("permission_words", json!(if run.thorough { "all 256 conforming words (R <= 5), menu of 10 (R6)" } else { "all, none, each single flag" }));
+    run.set("permission_words", json!(if run.thorough { "all 256 conforming words x configuration x password pair on the page document (R <= 5); all, none, each single flag elsewhere" } else { "all, none, each single flag x configuration x password pair on the page document; all elsewhere" }));
+    run.set(
+        "bounds",
+        json!(if run.thorough {
+            "thorough: R<=5 - every configuration x document x password pair x {permission menu of 10 x identifier length {16,0,32} x (B) all 3 salt/IV patterns and all spellings, in memory and through writer+loader}, plus the remaining 246 conforming permission words x identifier length 16 on the page document; R6 - the same with the permission menu only"
+        } else {
+            "quick: R<=5 - every configuration x document x password pair with permissions=all and identifier length 16 (in memory and through writer+loader), identifier lengths 0/32 and the alternative spellings (B) with permissions=all, the permission menu of 10 on the page document, (B) one salt/IV pattern per case in rotation; R6 - every sixth (document, password pair) per configuration plus the permission menu on (page, distinct passwords): R5 differs from R6 only in the hash function and carries the full menu"
+        }),
+    );
     run.exhaustive(true);
     run.finish();
 }
